@@ -41,7 +41,7 @@ for pid in ALL:
             "replay_cmd_template": "./check %s --replay {path}" % pid,
             "engine": P.get("engine_name", "rapidcheck-runner"),
             "level_claimed": {"category": P["level"], "text": P["level_text"],
-                              "design_ref": "DESIGN.md section 4, %s" % pid},
+                              "design_ref": "DESIGN.md section 4 (plan) and section 9 (as built), %s" % pid},
             "level_note": P["level_note"],
             "technique": P["technique"],
         })
@@ -49,12 +49,13 @@ for pid in ALL:
         m["not_applicable"].append({"property_id": pid, "reason": NOT_APPLICABLE.get(
             pid, "not claimed yet: the check for this property is not built in this revision (planned, see DESIGN.md section 4)")})
 for e in [
-    {"name": "libfuzzer-runner", "engine": "fuzz"},
+    {"name": "libfuzzer-runner", "engine": "fuzz", "path": "lib/engines.py", "text": "libFuzzer -fork campaigns with in-target semantic oracles"},
+    {"name": "hypothesis-cli-runner", "engine": "py", "path": "lib/c18.py + lib/engines.py",
+     "text": "Hypothesis (python3-vt, seeded, no database) driving the ASan-built yara / yarac binaries as subprocesses; failing example saved as JSON and replayed 3x"},
 ]:
     ids = sorted(p for p, P in PROPS.items() if P.get("engine") == e["engine"])
     if ids:
-        m["engines"].append({"name": e["name"], "path": "lib/engines.py", "serves_properties": ids,
-                             "kind_free_text": "libFuzzer -fork campaigns with in-target semantic oracles"})
+        m["engines"].append({"name": e["name"], "path": e["path"], "serves_properties": ids, "kind_free_text": e["text"]})
 with open(os.path.join(VERIF, "MANIFEST.json"), "w") as f:
     json.dump(m, f, indent=1)
 print("MANIFEST.json: %d checks, %d not applicable" % (len(m["checks"]), len(m["not_applicable"])))
